@@ -9,9 +9,9 @@ use std::io::{self, BufRead, Read};
 use self::common::*;
 use super::*;
 
-// @verif prop=C20 id=O20.1a tier=quick unwind=4 bound="ARBITRARY window of 0..=8 bytes (symbolic length/contents) as returned by one fill_buf: compression and (uncompressed-branch) format detection follow the magic numbers exactly; short windows never panic" fns="alignment::io::reader::builder::detect_compression_method,detect_format"
+// @verif prop=C20 id=O20.1a tier=quick unwind=6 bound="ARBITRARY window of 0..=8 bytes (symbolic length/contents) as returned by one fill_buf: compression and (uncompressed-branch) format detection follow the magic numbers exactly; short windows never panic" fns="alignment::io::reader::builder::detect_compression_method,detect_format"
 #[kani::proof]
-#[kani::unwind(4)]
+#[kani::unwind(6)]
 fn c20_alignment_detection_on_arbitrary_window() {
     let buf: [u8; 8] = kani::any();
     let n: usize = kani::any();
